@@ -1622,6 +1622,10 @@ func (cs *ConsensusState) ValidateBlock(block *types.Block) error {
 		return err
 	}
 
+	if !bytes.Equal(block.ValidatorsHash, s.Validators.Hash()) {
+		return fmt.Errorf("Wrong Block.Header.ValidatorsHash. Expected %X, got %X", s.Validators.Hash(), block.ValidatorsHash)
+	}
+
 	if !s.Validators.HasAddress(block.ProposerAddress) {
 		return fmt.Errorf("Block.Header.ProposerAddress, %X, is not a validator", block.ProposerAddress)
 	}
